@@ -381,7 +381,10 @@ def k_swap_rows(recv):
 
 def k_copy_within(recv):
     def find(fns):
-        return [n for n in fns if n == "CopyOps::copy_within" or n.endswith("::CopyOps::copy_within")]
+        # the receiver's own override if its impl has one, else the trait's default body
+        tyre = r"^&mut toodee::TooDee<T>$" if recv == "owned" else r"^&mut view::TooDeeViewMut<'_, T>$"
+        own = [n for n in find_fn(fns, "::copy_within", tyre) if "{closure" not in n]
+        return own or [n for n in fns if n == "CopyOps::copy_within" or n.endswith("::CopyOps::copy_within")]
 
     def build(ctx):
         r, d = owned(ctx) if recv == "owned" else view(ctx, "TooDeeViewMut")
